@@ -38,8 +38,8 @@ def l1cfg(n, c, faults, cancel, live=False):
 PLANS = {
     ("C01", "quick"): "exh:3:400,crafted:60:3,random:600,remote:500",
     ("C01", "thorough"): "exh:4:2000,crafted:3000:20,random:20000,remote:15000",
-    ("C02", "quick"): "faults:3:2,cancel:3:2,crafted:30:10,faultsR:10:2,random:400,ext:400,remote:400",
-    ("C02", "thorough"): "faults:4:6,cancel:4:3,exh:3:400,crafted:2000:100,faultsR:300:4,random:20000,ext:20000,remote:10000",
+    ("C02", "quick"): "faults:3:2,cancel:3:2,crafted:30:10,faultsR:10:2,random:400,ext:400,extf:400,remote:400",
+    ("C02", "thorough"): "faults:4:6,cancel:4:3,exh:3:400,crafted:2000:100,faultsR:300:4,random:20000,ext:20000,extf:10000,remote:10000",
     ("C03", "quick"): "ext:1200,extf:1200",
     ("C03", "thorough"): "ext:40000,extf:40000",
     ("C04", "quick"): "exh:3:400,faults:3:1,crafted:40:2,random:600,ext:200,remote:600",
